@@ -1,7 +1,7 @@
 #!/bin/sh
-# tools/matrix.sh : detection matrix of all seeded changes (round 1 under /tmp/seed, round 2 under /tmp/seed2 or /verif/seeded)
+# tools/matrix.sh [glob] : detection matrix of the seeded changes kept under /verif/seeded (default all; e.g. 'C*-r3*')
 cd /verif
-for d in seeded/C*-*/; do
+for d in seeded/${1:-C*-*}/; do
   n=$(basename $d)
   out=$(tools/seedall.sh /verif/$d/patch.diff 2>&1 | grep -E "^\S+: \[|PATCH DOES NOT|CHECKER-FAILURE" | sed -E 's/^[^[]*\[([A-Za-z0-9]+)\].*/\1/' | sort -u | tr '\n' ' ')
   echo "$n: ${out:-MISSED}"
